@@ -174,6 +174,7 @@ func scenario(c *ev.Check, removal, phase string) {
 	}()
 	objA := e2e.ClusterObject("a", a1, a2)
 	objA.Spec.DispatchPolicies = policies(a1, a2)
+	objA.Spec.SecureServing.ServerNames = []string{aliasA} // a second name of the cluster, spelled with capitals
 	objB := e2e.ClusterObject("b", b1)
 	if _, err := ctl.Apply(objA); err != nil {
 		c.EngineError("apply a: " + err.Error())
@@ -239,6 +240,7 @@ func scenario(c *ev.Check, removal, phase string) {
 	case "remove endpoint e1":
 		o := e2e.ClusterObject("a", a2)
 		o.Spec.DispatchPolicies = policies(a2, a2)
+		o.Spec.SecureServing.ServerNames = []string{aliasA}
 		if res, err := ctl.Apply(o); err != nil || res.RequeueAfter > 0 {
 			c.EngineError(label + ": the spec update was refused")
 			return
@@ -254,10 +256,11 @@ func scenario(c *ev.Check, removal, phase string) {
 		}
 	}
 	c.Add("scenarios", 1)
-	// (1) new requests
+	// (1) new requests - under the cluster's own name and under its other server name, in two spellings
 	codes := map[int]int{}
+	hosts := []string{"a", aliasA, strings.ToLower(aliasA), "A"}
 	for i := 0; i < 20; i++ {
-		resp, _, err := r.Do("GET", "a", "/api/v1/pods", nil, nil)
+		resp, _, err := r.Do("GET", hosts[i%len(hosts)], "/api/v1/pods", nil, nil)
 		if err != nil {
 			viol("new-request-error", "%v", err)
 			continue
@@ -349,6 +352,8 @@ func scenario(c *ev.Check, removal, phase string) {
 // lifecycle x removal: what the endpoint went through BEFORE it is removed (added by an update, disabled and enabled
 // again, removed and re-added ...) decides which code path installed its probe loop. Probing is observed at the stub
 // upstream itself (arrivals of the gateway's /healthz probes), not on a context flag.
+
+const aliasA = "Alias-A.Example.COM"
 
 const probeInterval = 10 * time.Millisecond
 const probeWindow = 600 * time.Millisecond
